@@ -138,6 +138,7 @@ open Ndn.Gen.C16 in
     deferred unlock; a read-lock holder performs no write to shared state; nothing hands out live
     table state; the FIB never calls back into the RIB (lock order RIB → FIB, no cycle) -/
 def disciplinedFact (m : MethodFact) : Bool :=
+  m.ptrRecv &&       -- a value receiver would copy the table and lock the copy's mutex
   (m.lock == "Lock" || m.lock == "RLock") && m.deferUnlock &&
   (m.lock != "RLock" || m.sharedWrites == 0) && m.returnsLive == 0 &&
   m.lockOps == 2 &&   -- the lock and its deferred unlock only: the critical section is never left early
@@ -180,11 +181,24 @@ open Ndn.Gen.C16 in
     it by a deferred unlock right after (no path can leave with it held: exactly these two lock operations),
     and never call back into the RIB / FIB (whose mutex the caller holds) -/
 def rvDisciplinedFact (m : MethodFact) : Bool :=
-  m.lock == "Lock" && m.deferUnlock && m.lockOps == 2 && m.fibCalls == 0 && !m.callsRib && m.reentrant == 0
+  m.ptrRecv && m.lock == "Lock" && m.deferUnlock && m.lockOps == 2 && m.fibCalls == 0 && !m.callsRib && m.reentrant == 0
 
 theorem readvertiser_follows_lock_discipline :
     Ndn.Gen.C16.readvertiser.all rvDisciplinedFact = true ∧
     ["Announce", "Withdraw"].all (fun n => Ndn.Gen.C16.readvertiser.any fun m => m.name == n) = true := by
+  decide
+
+/-- **One management command is one table operation.**  Every command handler of the management modules that
+    touch the shared tables (rib/register, rib/unregister, fib/add-nexthop, fib/remove-nexthop,
+    strategy-choice/set, /unset) makes at most ONE mutating call into the RIB / FIB-strategy table, outside any
+    loop, and the dataset handlers make none (facts regenerated on every run).  A command implemented as two
+    table operations - e.g. re-registration as remove + add - is two critical sections, and by
+    `split_update_allows_torn_lookup` a lookup can see the state between them. -/
+theorem one_command_is_one_table_operation :
+    Ndn.Gen.C16.mgmtHandlers.all (fun m => m.fibCalls ≤ 1 && m.fibCallsInLoop == 0 && (m.name != "list" || m.fibCalls == 0)) = true ∧
+    [("RIBModule", "register"), ("RIBModule", "unregister"), ("FIBModule", "add"), ("FIBModule", "remove"),
+     ("StrategyChoiceModule", "set"), ("StrategyChoiceModule", "unset")].all
+      (fun p => Ndn.Gen.C16.mgmtHandlers.any fun m => m.typ == p.1 && m.name == p.2 && m.fibCalls == 1) = true := by
   decide
 
 /-- what one call into the readvertiser does with its mutex -/
